@@ -5,7 +5,7 @@ from vf.e2 import propbase
 
 PROP = "C30"
 PART = {}
-LEVEL = "model_checking"
+LEVEL = "other"
 SCN = "singleton"
 FUNCTIONS = ["E1: miros.singleton.SingletonDecorator.__call__ on the five declared singletons through fabric / active-object life-cycle operations"]
 ASSUMPTIONS = [
